@@ -72,6 +72,9 @@ def map_stone_type_to_python_type(ns, data_type, override_dict=None):
         alias_type = cast(Alias, data_type)
         return map_stone_type_to_python_type(ns, alias_type.data_type, override_dict)
     elif is_user_defined_type(data_type):
+        user_defined_override = override_dict.get(UserDefined, None)
+        if user_defined_override:
+            return user_defined_override(ns, data_type, override_dict)
         user_defined_type = cast(UserDefined, data_type)
         class_name = class_name_for_data_type(user_defined_type)
         if user_defined_type.namespace.name != ns.name:
